@@ -421,6 +421,7 @@ func execute(r *core.Run, c *Case) {
 	var raw []byte
 	if p := core.Guard(func() { raw, err = env.Sign(req) }); p != nil {
 		r.Count("panicked", 1)
+		fail("valid-request-panicked", "Sign panicked: "+p.Value)
 		return
 	}
 	if err != nil {
@@ -439,6 +440,7 @@ func execute(r *core.Run, c *Case) {
 	var content *signature.EnvelopeContent
 	if p := core.Guard(func() { content, err = parsed.Verify() }); p != nil {
 		r.Count("panicked", 1)
+		fail("output-verification-panicked", "Verify of the library's own output panicked: "+p.Value)
 		return
 	}
 	if err != nil {
